@@ -195,6 +195,9 @@ def register(R):
   R.add(Contract(
       f'{ITER}::IteratorQueue.get_batch', PROPS, types=dict(t, max_batch_size='int', block='bool'), ret='list[obj]',
       setup=_blocking, modifies=SHARED, ghost=dict(removed='list[obj]'),
+      # a consumer that already took elements out (made room) tells the producers before it blocks itself: otherwise a
+      # producer waiting for room and this consumer waiting for more wait for each other
+      at_wait={'self._dequeue_lock': ['implies(len(result) > 0, notified(self._enqueue_lock))']},
       requires=INV + ['max_batch_size >= 0', 'self._max_batch_size >= 1'],
       # every element taken out of the queue is in the returned batch, in order, nothing else is
       ensures=INV + ['same_seq(result, removed)',
@@ -246,6 +249,8 @@ def register(R):
                                       'len(puts) == iterator.pos - pos0',
                                       'forall(lambda j: puts[j] is iterator.src[pos0 + j], 0, len(puts))',
                                       "ncalls('_stop_enqueue') == 0", "ncalls('_start_enqueue') == 1"],
+                     # every round takes one more element from the iterator: the producer loop terminates
+                     decreases='len(iterator.src) - iterator.pos',
                      havoc_ghost=['puts'])},
       bounded='bounded_queue_sequences'))
   R.add(Contract(
@@ -255,7 +260,9 @@ def register(R):
       requires=INV,
       ensures=INV + ["ncalls('_stop_enqueue') == 1 or (ncalls('_stop_enqueue') == 0 and enq_done(self))"],
       # a producer failure is recorded for the consumers, the producer signs off once, and the error is re-raised
-      raises_ensures={'UserError': ['not self.ignore_error', "ncalls('_stop_enqueue') == 1"],
+      raises_ensures={'UserError': ['not self.ignore_error', "ncalls('_stop_enqueue') == 1",
+                                    # the failure is what the consumers will observe
+                                    'self._exception is raised'],
                       'TimeoutError': ['True']},
       loops={0: dict(invariant=INV + ["ncalls('_stop_enqueue') == 0", "ncalls('_start_enqueue') == 1", 'not iterator.dead'],
                      havoc_ghost=['puts'])},
